@@ -55,14 +55,27 @@ var exprVocab = []vocab{
 	{"Null", tokenizers.Keyword, "NULL"}, {"Like", tokenizers.Keyword, "LIKE"},
 	{"Constant", tokenizers.Keyword, "TRUE"}, {"Constant", tokenizers.Quoted, "s"}, {"Constant", tokenizers.Float, "2.5"},
 	{"Unknown", tokenizers.Symbol, "$"},
+	// identifiers that are spelled like operators (a quoted identifier "and" is a word, not the operator)
+	{"Variable", tokenizers.Word, "and"}, {"Variable", tokenizers.Word, "NULL"}, {"Variable", tokenizers.Word, "not"}, {"Variable", tokenizers.Word, "+"},
 }
 
 // representative 16-symbol vocabulary (one operator per level)
-var exprVocabCore = []string{"1", "a", "(", ")", "[", "]", ",", "AND", "NOT", "=", "+", "*", "^", "-", "IS", "NULL", "IN", "LIKE", "$"}
+var exprVocabCore = []string{"1", "a", "(", ")", "[", "]", ",", "AND", "NOT", "=", "+", "*", "^", "-", "IS", "NULL", "IN", "LIKE", "$", "w:and"}
+
+// vocabByText must distinguish the keyword AND (Keyword token) from the word "and"/"NULL"/"not"/"+" (Word tokens): the word
+// entries are addressed with a "w:" prefix in the texts lists
+
 
 func vocabByText(text string) vocab {
+	if strings.HasPrefix(text, "w:") {
+		for _, v := range exprVocab {
+			if v.typ == tokenizers.Word && v.text == text[2:] {
+				return v
+			}
+		}
+	}
 	for _, v := range exprVocab {
-		if v.text == text {
+		if v.text == text && !(v.typ == tokenizers.Word && v.text != "a") {
 			return v
 		}
 	}
@@ -168,6 +181,8 @@ func execC02(seg []Ev) []Ev {
 			case v.kind == "Constant" && v.typ == tokenizers.Integer:
 				text = fmt.Sprint(i + 1)
 				ktext = text
+			case v.kind == "Variable" && v.text != "a":
+				ktext = text // spelled like an operator: kept as is
 			case v.kind == "Variable":
 				text = fmt.Sprintf("%s%d", v.text, i+1)
 				ktext = text
@@ -196,6 +211,8 @@ func execC02(seg []Ev) []Ev {
 					}
 					if t.Type() == tokenizers.Quoted {
 						sb.WriteString("'" + t.Value() + "'")
+					} else if t.Type() == tokenizers.Word && !strings.HasPrefix(t.Value(), "a") {
+						sb.WriteString("\"" + t.Value() + "\"") // a quoted identifier
 					} else {
 						sb.WriteString(t.Value())
 					}
@@ -282,7 +299,11 @@ func genC02(g *Gen) {
 			return
 		}
 		for _, v := range exprVocab {
-			rec2(append(append([]string{}, cur...), v.text))
+			t := v.text
+			if v.typ == tokenizers.Word && v.text != "a" {
+				t = "w:" + v.text
+			}
+			rec2(append(append([]string{}, cur...), t))
 		}
 	}
 	rec2(nil)
@@ -295,11 +316,11 @@ func genC02(g *Gen) {
 			j := r.Intn(len(ts))
 			switch r.Intn(5) {
 			case 0: // insert
-				ts = append(ts[:j], append([]string{exprVocab[r.Intn(len(exprVocab))].text}, ts[j:]...)...)
+				ts = append(ts[:j], append([]string{vocabKey(exprVocab[r.Intn(len(exprVocab))])}, ts[j:]...)...)
 			case 1: // delete
 				ts = append(ts[:j], ts[j+1:]...)
 			case 2: // replace
-				ts[j] = exprVocab[r.Intn(len(exprVocab))].text
+				ts[j] = vocabKey(exprVocab[r.Intn(len(exprVocab))])
 			case 3: // swap
 				m := r.Intn(len(ts))
 				ts[j], ts[m] = ts[m], ts[j]
@@ -392,4 +413,11 @@ func randomSentence(g *Gen, depth int) []string {
 	}
 	e0 = level([]string{"AND", "OR", "XOR"}, e1)
 	return e0(depth)
+}
+
+func vocabKey(v vocab) string {
+	if v.typ == tokenizers.Word && v.text != "a" {
+		return "w:" + v.text
+	}
+	return v.text
 }
